@@ -66,7 +66,7 @@ pub fn run(report: &Report, thorough: bool) -> Evidence {
     words.push("sesh".into());
     words.push("ami".into());
     let wraps: Vec<(&str, &str)> = vec![("", ""), ("(", ")"), ("\"", "\""), ("'", "'"), ("", "."), ("", "?!")];
-    let suffixes = ["er", "ke", "gulo", "ra", "te"];
+    let suffixes = ["er", "ke", "gulo", "ra", "te", "e", "r", "i", "o"];
     // (english, smart)
     let cfgs: Vec<(bool, bool)> = if thorough { vec![(false, true), (true, true), (true, false), (false, false)] } else { vec![(true, true), (false, false)] };
     let interleave: Vec<Vec<(&str, usize)>> = vec![vec![], vec![("as", 1)], vec![("ke", 1), ("a", 2)]];
